@@ -96,6 +96,9 @@ CLAIMS = {
  "C31": ("edge dominance + must-pass-through on the prepare/commit gates of the two-slot reload, who-may-write on the slot switch",
          "Decides only the gates: a commit fails without a pending prepare and switches the slot only after consuming it; a prepare always parks a configuration rebuilt from the configuration it was given and sets the prepared flag; the active slot changes only in commit/delete; whoever else overwrites the inactive slot invalidates a pending prepare. The interleaving statement of the property (all histories of prepare/commit/delete, one complete generation per session) is not decided.",
          "", "§4 C31 / §9"),
+ "C36": ("def-use agreement between the text that is fingerprinted into the request context's memo and the text handed to doQuery (sameVal at every set-then-run site) + sibling agreement of the normaliser composition GetMd5(GetFingerprint(text)) on the blacklist side and the request side + edge dominance of checkSQLAllowed's success return, over SSA",
+         "Decides which text is fingerprinted, by which composition, and that a hit fails the statement. NOT decided: that mysql.GetFingerprint ignores exactly literal values, whitespace, keyword case and comments and nothing else — a property of a 700-line hand-written normaliser over all statement texts (language-level).",
+         "", "§9 C36"),
  "C37": ("who-may-touch on the wheel state + must-pass-through (replace on re-registration, fire once then forget, refresh on every command, removal on exit)",
          "Decides the structure of the idle timer: wheel state only on the wheel goroutine, re-registration replaces the older entry, removal clears both maps, a fired entry is forgotten, callbacks start only when the rounds are exhausted, every command records activity and the session's exit removes it from the timer. Tick/round arithmetic ('no earlier than the timeout, no later than one tick') and refreshes dropped by a full pipeline are not decided.",
          "", "§4 C37 / §9"),
@@ -114,7 +117,6 @@ CLAIMS = {
 }
 
 NA = {
- "C36": "Metamorphic equality of the fingerprint over statement variants is a property of string transformations.",
 }
 
 # properties whose check exits 0 on the current tree (rules built, findings triaged: fixed or listed as known)
